@@ -745,6 +745,33 @@ Qed.
 Lemma cname_dec_in p off ls e : bytes_ok p -> cname_l p off ls e -> dec_in p off ls e.
 Proof. intros Hb [_ H]. apply (name_at_dec_in p Hb _ _ _ _ _ _ _ H). lia. Qed.
 
+(** what [rec_link] needs of the record the encoding was made from: its fixed fields stand in [p], and its data has the shape
+    its type demands (this holds for the records of a reading, and also for such records with names replaced) *)
+Definition fields_at (p : bytes) (r : rec_view) : Prop :=
+  u16_at p (rv_name_end r) (rv_type r) /\ u16_at p (rv_name_end r + 2) (rv_class r) /\ u32_at p (rv_name_end r + 4) (rv_ttl r) /\
+  rv_name_end r + 10 <= length p.
+
+Definition rd_shape (r : rec_view) (x : rd_view) : Prop :=
+  match x with
+  | RdName _ => PacketSpec.is_name_type (rv_type r) = true
+  | RdMx pref _ => PacketSpec.is_name_type (rv_type r) = false /\ rv_type r = TYPE_MX /\ length pref = 2
+  | RdSoa _ _ tail => PacketSpec.is_name_type (rv_type r) = false /\ rv_type r = TYPE_SOA /\ length tail = 20
+  | RdRaw _ => PacketSpec.is_name_type (rv_type r) = false /\ rv_type r <> TYPE_MX /\ rv_type r <> TYPE_SOA
+  end.
+
+Lemma fields_of_record p r e : record_at p r e -> fields_at p r.
+Proof. intros (_ & Ht & Hc & Httl & _ & He & Hle & _). unfold fields_at. repeat split; try assumption. lia. Qed.
+
+Lemma shape_of_rdata p r e x : record_at p r e -> rdata_at p r x -> rd_shape r x.
+Proof.
+  intros Hr Hx. pose proof (record_at_end _ _ _ Hr) as (He & _ & Hle). unfold rv_end in He.
+  unfold rdata_at in Hx. cbv zeta in Hx. destruct x as [ls|pref ls|l1 l2 tail|b]; cbn [rd_shape].
+  - apply Hx.
+  - destruct Hx as (H1 & H2 & H3 & -> & _). repeat split; try assumption. rewrite firstn_length, skipn_length. lia.
+  - destruct Hx as (H1 & H2 & H3 & m & _ & _ & ->). repeat split; try assumption. rewrite firstn_length, skipn_length. lia.
+  - destruct Hx as (H1 & H2 & H3 & _). auto.
+Qed.
+
 Section Link.
   Variables p out : bytes.
   Hypothesis Hb : bytes_ok p.
@@ -755,14 +782,12 @@ Section Link.
     intros (l2 & Hd & Hc) Hcn. destruct (dec_in_fun out _ _ _ Hd _ _ (cname_dec_in out o ls' e' Hbo Hcn)) as [-> ->]. split; [exact Hc|reflexivity].
   Qed.
 
-  Lemma rec_link r x e0 r' x' m : record_at p r e0 -> rdata_at p r x -> rec_enc p out (rv_off r') (r, x) m ->
+  Lemma rec_link r x r' x' m : fields_at p r -> rd_shape r x -> rec_enc p out (rv_off r') (r, x) m ->
     record_at out r' (rv_end r') -> rdata_at out r' x' -> ci_rec (r, x) (r', x') /\ rv_end r' = m.
   Proof.
-    intros Hr Hx (ne & Hname & H8 & Hlen & Hl16 & Hrd) Hr' Hx'. cbn [fst snd] in *.
+    intros (Ht & Hc & Httl & Hle0) Hx (ne & Hname & H8 & Hlen & Hl16 & Hrd) Hr' Hx'. cbn [fst snd] in *.
     destruct Hr' as (Hcn' & Ht' & Hc' & Httl' & Hrl' & _ & Hle' & _).
     destruct (name_link _ _ _ _ _ Hname Hcn') as [Hci Ene]. subst ne.
-    pose proof (record_at_end _ _ _ Hr) as (He0 & _ & Hle0). unfold rv_end in He0.
-    destruct Hr as (_ & Ht & Hc & Httl & Hrl & _).
     set (a := rv_name_end r) in *. set (a' := rv_name_end r') in *.
     assert (Hnth : forall i, i < 8 -> nth_error out (a' + i) = nth_error p (a + i)).
     { intros i Hi. rewrite (seg_nth out a' _ i H8) by (rewrite firstn_length, skipn_length; lia). apply nth_firstn_skipn. exact Hi. }
@@ -793,19 +818,17 @@ Section Link.
     assert (Eend : rv_end r' = m) by (unfold rv_end; fold a'; lia).
     split; [|exact Eend]. unfold ci_rec. cbn [fst snd]. split; [exact Hci|]. split; [exact Et|]. split; [exact Ec|]. split; [exact Ettl|].
     (* the data *)
-    unfold rdata_at in Hx, Hx'. cbv zeta in Hx, Hx'. fold a in Hx. fold a' in Hx'. rewrite Et in Hx'.
-    destruct x as [ls|pref ls|l1 l2 tail|b]; destruct x' as [ls'|pref' ls'|l1' l2' tail'|b']; cbn [rd_ci rdata_enc] in *;
+    unfold rdata_at in Hx'. cbv zeta in Hx'. fold a' in Hx'. rewrite Et in Hx'.
+    destruct x as [ls|pref ls|l1 l2 tail|b]; destruct x' as [ls'|pref' ls'|l1' l2' tail'|b']; cbn [rd_ci rdata_enc rd_shape] in *;
       try solve [exfalso; clear Hrd; repeat match goal with H : _ /\ _ |- _ => destruct H end; repeat match goal with H : exists _, _ |- _ => destruct H end;
                  first [congruence | match goal with A : ?t = TYPE_MX, B : ?t = TYPE_SOA |- _ => rewrite A in B; discriminate end]].
     - destruct Hx' as (_ & Hcn2). destruct (name_link _ _ _ _ _ Hrd Hcn2) as [H _]. exact H.
-    - destruct Hx as (_ & _ & Hl2 & Ep & _). destruct Hx' as (_ & _ & _ & Ep' & Hcn2). destruct Hrd as (Hs & Hn).
-      assert (Lp : length pref = 2) by (rewrite Ep, firstn_length, skipn_length; lia).
+    - destruct Hx as (_ & _ & Lp). destruct Hx' as (_ & _ & _ & Ep' & Hcn2). destruct Hrd as (Hs & Hn).
       rewrite Lp in Hn. destruct (name_link _ _ _ _ _ Hn Hcn2) as [H _]. split; [|exact H].
       rewrite Ep'. rewrite <- (seg_firstn _ _ _ Hs) at 1. rewrite Lp. reflexivity.
-    - destruct Hx as (_ & _ & Hl21 & m0 & _ & _ & Etl). destruct Hx' as (_ & _ & _ & m0' & Hca & Hcb & Etl').
+    - destruct Hx as (_ & _ & Lt). destruct Hx' as (_ & _ & _ & m0' & Hca & Hcb & Etl').
       destruct Hrd as (m1 & m2 & Hn1 & Hn2 & Hs & Em).
       destruct (name_link _ _ _ _ _ Hn1 Hca) as [H1 <-]. destruct (name_link _ _ _ _ _ Hn2 Hcb) as [H2 E2].
-      assert (Lt : length tail = 20) by (rewrite Etl, firstn_length, skipn_length; lia).
       split; [exact H1|]. split; [exact H2|]. rewrite Etl'. rewrite <- (seg_firstn _ _ _ Hs) at 1. rewrite Lt, E2. reflexivity.
     - destruct Hx' as (_ & _ & _ & Eb'). destruct Hrd as (Hs & Em). rewrite Eb'. unfold rdata_of. fold a'. rewrite Erl.
       rewrite <- (seg_firstn _ _ _ Hs) at 1. f_equal. lia.
@@ -822,9 +845,9 @@ Section Link.
   Qed.
 
   Lemma recs_link : forall L o e L', recs_enc p out o L e -> records_at out o (map fst L') e -> Forall (rd_ok out) L' ->
-    Forall (fun rx => exists e0, record_at p (fst rx) e0) L -> Forall (rd_ok p) L -> Forall2 ci_rec L L'.
+    Forall (fun rx => fields_at p (fst rx) /\ rd_shape (fst rx) (snd rx)) L -> Forall2 ci_rec L L'.
   Proof.
-    induction L as [|[r x] L IH]; intros o e L' Henc Hrecs Hrd' Hrp Hrdp.
+    induction L as [|[r x] L IH]; intros o e L' Henc Hrecs Hrd' Hrp.
     - cbn [recs_enc] in Henc. subst e. destruct L' as [|rx' L']; [constructor|].
       apply records_at_span in Hrecs. cbn [map length] in Hrecs. lia.
     - cbn [recs_enc] in Henc. destruct Henc as (m & Hrec & Hrest).
@@ -835,11 +858,11 @@ Section Link.
           destruct H as (m' & H1 & H2). apply rec_enc_adv in H1. apply IHL in H2. lia. }
         lia.
       + cbn [map fst] in Hrecs. destruct (records_cons_inv out _ _ _ _ Hrecs) as (Eo & Hr' & Hrest').
-        destruct (Forall_inv Hrp) as (e0 & Hr0). cbn [fst] in Hr0.
+        destruct (Forall_inv Hrp) as (Hf0 & Hs0). cbn [fst snd] in Hf0, Hs0.
         rewrite Eo in Hrec.
-        destruct (rec_link r x e0 r' x' m Hr0 (Forall_inv Hrdp) Hrec Hr' (Forall_inv Hrd')) as [Hci Em].
+        destruct (rec_link r x r' x' m Hf0 Hs0 Hrec Hr' (Forall_inv Hrd')) as [Hci Em].
         constructor; [exact Hci|]. rewrite Em in Hrest'.
-        apply (IH m e L' Hrest Hrest' (Forall_inv_tail Hrd') (Forall_inv_tail Hrp) (Forall_inv_tail Hrdp)).
+        apply (IH m e L' Hrest Hrest' (Forall_inv_tail Hrd') (Forall_inv_tail Hrp)).
   Qed.
 End Link.
 
@@ -891,13 +914,14 @@ Proof.
   exists qls, qt, lxa, lxn, lxr, lxa', lxn', lxr'. split; [exact R|]. split; [exact R'|].
   (* the records *)
   pose proof (records_at_app _ _ _ _ Ra' _ _ (records_at_app _ _ _ _ Rn' _ _ Rr')) as Rall'. rewrite <- !map_app in Rall'.
-  assert (Hrp : Forall (fun rx => exists e0, record_at p (fst rx) e0) (lxa ++ lxn ++ lxr)).
+  assert (Hrp : Forall (fun rx => fields_at p (fst rx) /\ rd_shape (fst rx) (snd rx)) (lxa ++ lxn ++ lxr)).
   { pose proof (records_at_app _ _ _ _ Ra _ _ (records_at_app _ _ _ _ Rn _ _ Rr)) as Rall. rewrite <- !map_app in Rall.
-    clear -Rall. revert Rall. generalize (qe + 4). induction (lxa ++ lxn ++ lxr) as [|rx L IH]; intros o H; [constructor|].
-    cbn [map] in H. destruct (records_cons_inv p _ _ _ _ H) as (_ & Hr & Hrest). constructor; [exists (rv_end (fst rx)); exact Hr|apply (IH _ Hrest)]. }
+    clear -Rall Hx. revert Rall Hx. generalize (qe + 4). induction (lxa ++ lxn ++ lxr) as [|rx L IH]; intros o H Hx; [constructor|].
+    cbn [map] in H. destruct (records_cons_inv p _ _ _ _ H) as (_ & Hr & Hrest).
+    constructor; [split; [exact (fields_of_record _ _ _ Hr)|exact (shape_of_rdata _ _ _ _ Hr (Forall_inv Hx))]|apply (IH _ Hrest (Forall_inv_tail Hx))]. }
   replace (12 + length (wire_of_labels qls) + 4) with (qe + 4) in Hrecs by lia.
   rewrite <- Eqe in Rall'.
-  pose proof (recs_link p out Hbo _ _ _ _ Hrecs Rall' Hx' Hrp Hx) as Hall.
+  pose proof (recs_link p out Hbo _ _ _ _ Hrecs Rall' Hx' Hrp) as Hall.
   (* the header counts are those of the input *)
   assert (Hh : forall i, i < 12 -> nth_error out i = nth_error p i).
   { intros i Hi. rewrite Eout, <- app_assoc. apply hdr_nth; lia. }
